@@ -84,6 +84,10 @@ def inputs(rng, tier):
             e, o = encode(lat_e, lon, 0), encode(lat_o, lon, 1)
             add("beyondpole", (0,) + e, (1,) + o)
             add("beyondpole", (1,) + o, (0,) + e)
+    # exactly on the 180-degree meridian (the returned longitude is -180, never +180)
+    for _ in range(q(60, 1500)):
+        lat = rng.choice((0.0, 89.0, -89.0, 66.0, -33.0, 52.0, 10.0, 30.5, 86.8, rng.uniform(-89.9, 89.9)))
+        both_orders("anti180", lat, rng.choice((180.0, -180.0)))
     for n in range(2, 60):
         t = transition_lat(n)
         for _ in range(q(12, 400)):
@@ -215,3 +219,25 @@ def run(prop, tier, seed, rep):
     rep.samples = [events[0], events[len(ins) // 2], nl[0]]
     rep.assumptions += ["run-length compression of the NL walk (only change points are logged) is harness code",
                         "positions compared with a tolerance of 3 micro-degrees"]
+
+
+def decode_ref(e, o, latest_odd):
+    """reference global decode (exact rational arithmetic on the 17-bit values, closed-form NL): (lat, lon) in degrees or None"""
+    from fractions import Fraction as F
+    ye, xe, yo, xo = F(e[0], P17), F(e[1], P17), F(o[0], P17), F(o[1], P17)
+    j = math.floor(59 * ye - 60 * yo + F(1, 2))
+    lat_e = F(360, 60) * ((j % 60) + ye)
+    lat_o = F(360, 59) * ((j % 59) + yo)
+    if lat_e >= 270: lat_e -= 360
+    if lat_o >= 270: lat_o -= 360
+    if not (-90 <= lat_e <= 90 and -90 <= lat_o <= 90):
+        return None
+    if nl_closed(float(lat_e)) != nl_closed(float(lat_o)):
+        return None
+    lat = lat_o if latest_odd else lat_e
+    nl = nl_closed(float(lat))
+    ni = max(nl - (1 if latest_odd else 0), 1)
+    m = math.floor(xe * (nl - 1) - xo * nl + F(1, 2))
+    lon = F(360, ni) * ((m % ni) + (xo if latest_odd else xe))
+    if lon >= 180: lon -= 360
+    return float(lat), float(lon)
